@@ -77,6 +77,28 @@ def run_steps(spec, items, mux=True):
     return steps, end, st.sink
 
 
+def run_steps_cold(spec, items, mux=True):
+    """The same observation with a COLD source (rx.from_, which delivers all items from one scheduled action of the
+    current-thread trampoline): a do_action in front of the pipeline marks how many outputs had reached the subscriber
+    when each item - and the completion - was handed to the pipeline.  Work that the pipeline defers to the scheduler
+    shows up as outputs that arrive after later inputs."""
+    import rx.operators as rxops
+    ctx = opspecs.Ctx()
+    ops_ = opspecs.build(spec, ctx)
+    sink = Sink()
+    marks = []
+    src = rx.from_(list(items)).pipe(rxops.do_action(on_next=lambda x: marks.append(len(sink.items)),
+                                                     on_completed=lambda: marks.append(len(sink.items))))
+    obs = src.pipe(rs.state.with_store(new_store(), ops_)) if mux else src.pipe(*ops_)
+    sink.subscribe_to(obs)
+    n = len(items)
+    marks = marks + [len(sink.items)] * (n + 1 - len(marks))        # stream ended early (take/first on a plain observable, error)
+    sink.before_first_input = list(sink.items[:marks[0]])
+    steps = [sink.items[marks[i]:marks[i + 1]] for i in range(n)]
+    end = sink.items[marks[n]:]
+    return steps, end, sink
+
+
 def model_steps(spec, items):
     m = opspecs.model(spec)
     steps = [m.item(x) for x in items]
